@@ -113,7 +113,8 @@ fn pipe_case(rt: &tokio::runtime::Runtime, dir: &Path, case: &Value, n: usize) -
 				return get_reader(&fp[idx - 1]).await;
 			}
 			match reg.lock().unwrap().get(&key) {
-				Some(m) => Ok(Box::new(m.clone()) as Box<dyn TilesReaderTrait>),
+				// lookups of earlier-listed sources also take longer to answer
+				Some(m) => Ok(Box::new(crate::mem::SlowMemReader { inner: m.clone(), yields: 4usize.saturating_sub(idx) }) as Box<dyn TilesReaderTrait>),
 				None => Err(anyhow::anyhow!("unknown source {key}")),
 			}
 		})
